@@ -182,6 +182,17 @@ func main() {
 			reps = append(reps, rep)
 		}
 	}
+	for name := range x.usedLemmas {
+		ok := false
+		for _, l := range db.Lemmas {
+			if l.Name == name && hasProp(l.Props, *prop) {
+				ok = true
+			}
+		}
+		if !ok {
+			must(fmt.Errorf("lemma %s is used by a contract of %s but not proved under that property", name, *prop))
+		}
+	}
 	lemRep := x.lemmaReport(*prop)
 	if lemRep != nil && *fnKey == "" {
 		reps = append(reps, lemRep)
@@ -233,6 +244,17 @@ func (x *Engine) lemmaReport(prop string) *FuncReport {
 	rep := &FuncReport{Key: "lemmas", Props: []string{prop}}
 	st := &State{live: "true", h: map[string]string{}}
 	for _, l := range ls {
+		if l.Params != nil {
+			func() {
+				defer func() {
+					if r := recover(); r != nil {
+						rep.Err = fmt.Sprint(r)
+					}
+				}()
+				x.inductiveLemma(l, st)
+			}()
+			continue
+		}
 		ev := &Eval{x: x, st: st, old: st, env: map[string]Val{}, pkg: x.pkgByPath(l.Pkg)}
 		c := &Clause{Expr: l.Expr, Text: l.Text, File: l.File, Line: l.Line}
 		func() {
@@ -570,4 +592,87 @@ func truncate(s string, n int) string {
 		return s[:n] + "\n... (truncated)"
 	}
 	return s
+}
+
+// inductiveLemma: base and step obligations of a lemma proved by induction on a natural number
+// (or a single obligation when no induction variable is given).
+func (x *Engine) inductiveLemma(l *Lemma, st *State) {
+	env := map[string]Val{}
+	for i, p := range l.Params {
+		n := x.fresh("lp_" + p)
+		x.decl(n, l.Sorts[i])
+		env[p] = Val{T: n, Sort: l.Sorts[i]}
+	}
+	pkg := x.pkgByPath(l.Pkg)
+	conj := func(cs []*Clause, env map[string]Val) string {
+		var ts []string
+		for _, c := range cs {
+			ev := &Eval{x: x, st: st, old: st, env: env, pkg: pkg}
+			ts = append(ts, x.safeEvalBool(ev, c))
+		}
+		return andTerms(ts...)
+	}
+	pos := fmt.Sprintf("%s:%d", shortFile(l.File), l.Line)
+	if l.IndVar == "" {
+		x.obligeNoAssume(st, "lemma", l.Name, fmt.Sprintf("(=> %s %s)", conj(l.Requires, env), conj(l.Ensures, env)), "lemma "+l.Name, pos)
+		return
+	}
+	with := func(iv string) map[string]Val {
+		e2 := map[string]Val{}
+		for k, v := range env {
+			e2[k] = v
+		}
+		e2[l.IndVar] = Val{T: iv, Sort: "Int"}
+		return e2
+	}
+	k := x.fresh("ind")
+	x.decl(k, "Int")
+	req := conj(l.Requires, env)
+	x.obligeNoAssume(st, "lemma", l.Name+".base", fmt.Sprintf("(=> %s %s)", req, conj(l.Ensures, with("0"))), "induction base of lemma "+l.Name, pos)
+	x.obligeNoAssume(st, "lemma", l.Name+".step", fmt.Sprintf("(=> (and %s (>= %s 0) %s) %s)", req, k, conj(l.Ensures, with(k)), conj(l.Ensures, with("(+ "+k+" 1)"))), "induction step of lemma "+l.Name, pos)
+}
+
+// useLemma instantiates a lemma (proved separately) with the given arguments.
+func (x *Engine) useLemma(st *State, old *State, u *Clause, env map[string]Val, pkg *ssa.Package) {
+	var lm *Lemma
+	for _, l := range x.db.Lemmas {
+		if l.Name == u.Label && l.Params != nil {
+			lm = l
+		}
+	}
+	if lm == nil {
+		panic(fmt.Sprintf("%s:%d: contract error: unknown lemma %s\n    in: %s", u.File, u.Line, u.Label, u.Text))
+	}
+	args := u.Expr.Args[1:]
+	if len(args) != len(lm.Params) {
+		panic(fmt.Sprintf("%s:%d: contract error: lemma %s expects %d arguments\n    in: %s", u.File, u.Line, u.Label, len(lm.Params), u.Text))
+	}
+	lenv := map[string]Val{}
+	for i, a := range args {
+		ev := &Eval{x: x, st: st, old: old, env: env, pkg: pkg}
+		v := x.safeEval(ev, &Clause{Expr: a, Text: u.Text, File: u.File, Line: u.Line})
+		v.T = x.name("la_"+mangle(lm.Params[i]), ev.sortOf(v), v.T)
+		lenv[lm.Params[i]] = Val{T: v.T, Sort: ev.sortOf(v)}
+	}
+	lpkg := x.pkgByPath(lm.Pkg)
+	var req, ens []string
+	for _, c := range lm.Requires {
+		ev := &Eval{x: x, st: st, old: old, env: lenv, pkg: lpkg}
+		req = append(req, x.safeEvalBool(ev, c))
+	}
+	x.n++
+	iv := fmt.Sprintf("%s_q%d", lm.IndVar, x.n)
+	for _, c := range lm.Ensures {
+		ev := &Eval{x: x, st: st, old: old, env: lenv, pkg: lpkg, bound: map[string]Val{}}
+		if lm.IndVar != "" {
+			ev.bound[lm.IndVar] = Val{T: iv, Sort: "Int"}
+		}
+		ens = append(ens, x.safeEvalBool(ev, c))
+	}
+	concl := andTerms(ens...)
+	if lm.IndVar != "" {
+		concl = fmt.Sprintf("(forall ((%s Int)) (=> (>= %s 0) %s))", iv, iv, concl)
+	}
+	x.usedLemmas[lm.Name] = true
+	x.assume(st, fmt.Sprintf("(=> %s %s)", andTerms(req...), concl))
 }
